@@ -43,8 +43,12 @@ Record tseq := mkTs {
   ts_flags : list Z;             (* node flags (bit 0 = TSK_NODE_IS_SAMPLE) *)
   ts_tree_sites : list (list Z); (* tree_sites[k] as site ids *)
   ts_nsites : Z;                 (* tables->sites.num_rows *)
-  ts_tracked0 : list Z           (* num_tracked_samples after tsk_tree_set_tracked_samples
+  ts_tracked0 : list Z;          (* num_tracked_samples after tsk_tree_set_tracked_samples
                                     on the new (null) tree: the tree option *)
+  ts_time : list Z               (* node times, as ranks 0 .. N-1 (only compared): strictly
+                                    increasing along every edge = the forest is acyclic, which
+                                    is what makes the ancestor walks of insert / remove_edge
+                                    terminate *)
 }.
 
 Definition num_edges (ts : tseq) : Z := zlen (ts_edges ts).
@@ -578,6 +582,15 @@ Definition disjointb (es : list edge) : bool :=
                                   (e_right a <=? e_left b) || (e_right b <=? e_left a)) t && go t
     end in go es.
 
+(* node times: one rank in [0, N) per node, parent strictly older than child on every edge;
+   the tracked-count option has one entry per node + the virtual root *)
+Definition tm (ts : tseq) (u : Z) : Z := match get (ts_time ts) u with Ok x => x | _ => 0 end.
+Definition time_ok (ts : tseq) : bool :=
+  (zlen (ts_time ts) =? ts_N ts) &&
+  forallb (fun x => (0 <=? x) && (x <? ts_N ts)) (ts_time ts) &&
+  forallb (fun ed => tm ts (e_child ed) <? tm ts (e_parent ed)) (ts_edges ts) &&
+  (zlen (ts_tracked0 ts) =? ts_N ts + 1).
+
 Definition valid_tsb (ts : tseq) : bool :=
   (0 <? ts_L ts) && (0 <=? ts_N ts) &&
   forallb (edge_ok ts) (ts_edges ts) &&
@@ -586,7 +599,8 @@ Definition valid_tsb (ts : tseq) : bool :=
   disjointb (ts_edges ts) &&
   (hd 1 (ts_bps ts) =? 0) && (last (ts_bps ts) 0 =? ts_L ts) && strictb (ts_bps ts) &&
   forallb (fun ed => memb (e_left ed) (ts_bps ts) && memb (e_right ed) (ts_bps ts)) (ts_edges ts) &&
-  ((ts_nsites ts <=? 0) || (zlen (ts_tree_sites ts) =? num_trees ts)).
+  ((ts_nsites ts <=? 0) || (zlen (ts_tree_sites ts) =? num_trees ts)) &&
+  time_ok ts.
 
 (* SPEC: the parent of node c at position x, straight from the rows *)
 Definition covers (ed : edge) (x : Z) : bool := (e_left ed <=? x) && (x <? e_right ed).
